@@ -609,6 +609,54 @@ fn run_message_api(f: &[&str]) -> Result<String, String> {
     ))
 }
 
+/// RB id chunk_size part ops rds : tungstenite::buffer::ReadBuffer<CHUNK>  (ops: rf | ad:<n> | ch | rm; into_vec at the end)
+fn run_readbuf_n<const C: usize>(f: &[&str]) -> Result<String, String> {
+    use bytes::Buf;
+    use tungstenite::buffer::ReadBuffer;
+    let part = unhex(f[3]);
+    let mut script = Script::parse(&list(f[5]), &[], &[])?;
+    let mut rb: ReadBuffer<C> = if part.is_empty() { ReadBuffer::new() } else { ReadBuffer::from_partially_read(part) };
+    let mut out: Vec<String> = Vec::new();
+    for o in list(f[4]) {
+        let p: Vec<&str> = o.split(':').collect();
+        let r = catch_unwind(AssertUnwindSafe(|| -> String {
+            match p.as_slice() {
+                ["rf"] => match rb.read_from(&mut script) {
+                    Ok(n) => format!("ok:{n}"),
+                    Err(e) => format!("err:io:{}", io_kind_s(e.kind())),
+                },
+                ["ad", n] => {
+                    let n: usize = n.parse().unwrap();
+                    rb.advance(n);
+                    format!("ok:{n}")
+                }
+                ["ch"] => format!("b:{}", hex(rb.chunk())),
+                ["rm"] => format!("ok:{}", rb.remaining()),
+                _ => "bad-op".into(),
+            }
+        }));
+        match r {
+            Ok(t) => out.push(t),
+            Err(_) => {
+                out.push("panic".into());
+                return Ok(out.join(" | "));
+            }
+        }
+    }
+    out.push(format!("iv:{}", hex(&rb.into_vec())));
+    Ok(out.join(" | "))
+}
+
+fn run_readbuf(f: &[&str]) -> Result<String, String> {
+    match f[2] {
+        "1" => run_readbuf_n::<1>(f),
+        "4" => run_readbuf_n::<4>(f),
+        "8" => run_readbuf_n::<8>(f),
+        "4096" => run_readbuf_n::<4096>(f),
+        _ => Err("chunk size".into()),
+    }
+}
+
 /// FS id pre ops rds wrs fls : FrameSocket API (read / write / send / flush on raw frames)
 fn run_framesocket(f: &[&str]) -> Result<(String, String), String> {
     let pre = unhex(f[2]);
@@ -826,6 +874,7 @@ fn main() {
                 "U8" => (line.clone(), run_utf8(&f)),
                 "MK" => (line.clone(), run_mask(&f).unwrap_or_else(|e| format!("bad-case:{e}"))),
                 "MA" => (line.clone(), run_message_api(&f).unwrap_or_else(|e| format!("bad-case:{e}"))),
+                "RB" => (line.clone(), run_readbuf(&f).unwrap_or_else(|e| format!("bad-case:{e}"))),
                 "KS" => (line.clone(), run_key_stats(&f)),
                 "EP" => (line.clone(), run_entry_points(&f)),
                 "FS" => match run_framesocket(&f) {
